@@ -549,8 +549,44 @@ func (hs *clientHandshakeState) processServerHello() (bool, error) {
 		return false, errors.New("tlcp: server resumed a session without a master secret")
 	}
 
+	// 握手重用不再传输证书：会话中记录的服务端证书须按当前配置重新校验
+	if err := c.verifySessionCertificates(hs.session.peerCertificates); err != nil {
+		return false, err
+	}
 	c.peerCertificates = hs.session.peerCertificates
 	return true, nil
+}
+
+// verifySessionCertificates 按当前配置（根证书、时间、服务器名称）校验会话中记录的
+// 服务端签名证书与加密证书，校验规则与完整握手中的 verifyServerCertificate 一致。
+func (c *Conn) verifySessionCertificates(certs []*x509.Certificate) error {
+	if c.config.InsecureSkipVerify {
+		return nil
+	}
+	if len(certs) < 2 {
+		_ = c.sendAlert(alertBadCertificate)
+		return errors.New("tlcp: resumed session does not carry the server's two certificates")
+	}
+	opts := x509.VerifyOptions{
+		Roots:         c.config.RootCAs,
+		CurrentTime:   c.config.time(),
+		DNSName:       c.config.ServerName,
+		Intermediates: x509.NewCertPool(),
+	}
+	for _, cert := range certs[2:] {
+		opts.Intermediates.AddCert(cert)
+	}
+	chains, err := certs[0].Verify(opts)
+	if err != nil {
+		_ = c.sendAlert(alertBadCertificate)
+		return &CertificateVerificationError{UnverifiedCertificates: certs, Err: err}
+	}
+	if _, err = certs[1].Verify(opts); err != nil {
+		_ = c.sendAlert(alertBadCertificate)
+		return &CertificateVerificationError{UnverifiedCertificates: certs, Err: err}
+	}
+	c.verifiedChains = chains
+	return nil
 }
 
 func (hs *clientHandshakeState) readFinished(out []byte) error {
